@@ -231,3 +231,17 @@ def templates_centred(sx, B):
     GenerateTemplates with every combination of supplied templates and volumes): every stored template has zero centre of
     geometry, so that the centre of a backmapped residue is the residue position."""
     _c15.precedence(sx, B)
+
+
+import harness.C03 as _c03      # noqa: E402
+
+
+@condition("C06.factor_wiring",
+           anchors=["polyply.src.gen_coords:gen_coords"],
+           replay=False, must_cover=["density"],
+           stubs=["as C03.box_rule"], bounds={"quick": {}, "thorough": {}})
+def factor_wiring(sx, B):
+    """'scaled by the backmapping factor': the real body of gen_coords with its stages replaced by recording stubs (the C03.box_rule
+    harness) and an arbitrary symbolic factor: the backmapping stage is configured with exactly the factor given to gen_coords
+    (C06.placement then shows that the stage scales the template by the factor it is configured with)."""
+    _c03.box_rule(sx, B)
